@@ -38,7 +38,7 @@ def run_pipeline(pid, tier, v, mc_cfgs, sim_cfg="Sim_Silences.cfg", sim_num=None
         log("  %s: %d states generated, %d distinct, depth %d, %.1fs" % (cfg, mc.generated, mc.distinct, mc.depth, mc.wall))
         mcs.append(mc)
     binp = vlib.go_build_test(pid, "sil")
-    num = sim_num or (3000 if thorough else 300)
+    num = sim_num or (3000 if thorough else 160)
     gens = []
     for name, cfg, sim in [("sim", sim_cfg, "num=%d" % num)] + list(extra_gen):
         gp = os.path.join(wd, "gen_%s.jsonl" % name)
